@@ -1,3 +1,2 @@
--- This module serves as the root of the `CifModel` library.
--- Import modules here that should be built as part of the library.
+-- root of the library; check.py builds the modules it needs by name
 import CifModel.Basic
